@@ -141,7 +141,7 @@ Lemma insert_all_self l : ssorted l -> insert_all l [] = l.
 Proof. intros H. apply insert_all_rebuild; [exact H|]. intros x. reflexivity. Qed.
 
 (* ---------- write then read ---------- *)
-Theorem dimacs_roundtrip G : gio_wf G -> io_kind G <> KBipartite -> no_nl (io_name G) ->
+Theorem dimacs_roundtrip G : gio_wf G -> io_kind G <> GioBipartite -> no_nl (io_name G) ->
   exists nm, gio_read_dimacs (io_kind G) (gio_write_dimacs G) = GOk (mkIOG (io_kind G) nm (io_n G) (io_r G) (io_edges G)).
 Proof.
   intros (Hn & Hr & Hk & Hs & Hf) HK Hname. specialize (Hk HK).
